@@ -125,6 +125,10 @@ structure Mapper where
       declarations — the ones that the data of a child carries (base.py:476-481: the default convention resolves
       the key of EACH child item with that item's own declarations) -/
   umX : List (String × String) → String → String := fun _ s => um s
+  /-- `map_attributes` (base.py:237-258): how an attribute name is written.  Not `map_qname`: the default
+      namespace never applies to attributes, so a namespaced attribute is written with a prefix bound to its
+      namespace or in extended form, while an element of the same expanded name may be written without prefix -/
+  mpA : String → String := mp
 
 inductive Err where
   | typeErr        -- XMLSchemaTypeError / TypeError   (caught by raw_encode → validation error)
@@ -271,7 +275,7 @@ def xmlnsOf (useNs : Bool) (rest : List J) : List (String × String) :=
   | true, .dict kvs :: _ => kvs.filterMap xmlnsOfKv
   | _, _ => []
 
-def attrPairs (m : Mapper) (hd : Hd) : List (String × J) := hd.attrs.map fun kv => (m.mp kv.1, kv.2)
+def attrPairs (m : Mapper) (hd : Hd) : List (String × J) := hd.attrs.map fun kv => (m.mpA kv.1, kv.2)
 
 /-- jsonml.py:72-77: `dict(map_attributes(...))` then `.update(xmlns entries)` -/
 def decAttrs (m : Mapper) (useNs : Bool) (hd : Hd) : List (String × J) :=
